@@ -54,7 +54,7 @@ def predictions(name: str, cases: list[dict], fname: str):
 
 
 def run_reaction(name: str, cases: list[dict], seed: int, fname: str):
-    fails, stats = [], {"decay_lookups": 0, "chain_ratios": 0, "numeric": 0, "structural": 0}
+    fails, stats = [], {"decay_lookups": 0, "chain_ratios": 0, "numeric": 0, "structural": 0, "cases_with_warnings": 0, "formulate_ok": 0, "error_steps": 0, "notfound_steps": 0}
     pr, msg = predictions(name, cases, fname)
     if pr is None:
         return [{"signature": "corr:model_run", "what": msg, "case": cases[0], "nocase": True}], stats, 0
@@ -91,7 +91,7 @@ def main():
     names = sys.argv[3:] or L.REACTIONS
     rng = random.Random(seed)
     cases = {nm: [L.gen_case(rng, nm) for _ in range(n)] for nm in names}
-    failures, total = [], {"decay_lookups": 0, "chain_ratios": 0, "numeric": 0, "structural": 0}
+    failures, total = [], {"decay_lookups": 0, "chain_ratios": 0, "numeric": 0, "structural": 0, "cases_with_warnings": 0, "formulate_ok": 0, "error_steps": 0, "notfound_steps": 0}
     ncases = 0
     # model runs in parallel (coqc), implementation sequentially in this process
     with ThreadPoolExecutor(max_workers=8) as ex:
